@@ -362,6 +362,17 @@ func runSRT(e *Exchange, p Ports, o execOpts) string {
 		n, err2 := c.Read(buf)
 		if err2 == nil && n >= 40 {
 			class += fmt.Sprintf(":conclusion-answer-type=%x", buf[36:40])
+			if e.Seed.Open && n >= srtSocketIDOff+4 && bytes.Equal(buf[36:40], []byte{0xff, 0xff, 0xff, 0xff}) {
+				// accepted: the server now serves the connection (it sends the stream, or waits for one). Let it run for
+				// a moment, then leave as a client does, with a SHUTDOWN control packet - otherwise the server keeps the
+				// connection (and the ~128 MB of address space gosrt reserves for each) until its peer idle timeout
+				time.Sleep(250 * time.Millisecond)
+				sd := make([]byte, 20)
+				sd[0], sd[1] = 0x80, 0x05
+				copy(sd[12:16], buf[srtSocketIDOff:srtSocketIDOff+4])
+				_, _ = c.Write(sd)
+				class += ":shutdown-sent"
+			}
 		} else {
 			class += ":conclusion-unanswered"
 		}
